@@ -324,6 +324,31 @@ func ruleR12_5(r *Run) {
 		}
 		r.check(ok, "repoManager.loadMetadata:versionID-above-known", "versionID is raised to (known version id)+k, k ≥ 1, over all of versionToUUID",
 			"the loader no longer raises the version-id counter above every known version id", w.fpos(lm))
+		// the counter is the NEXT id to hand out, so a known id equal to it must trigger the correction too:
+		// the guard is `v >= versionID` (its negation v < versionID is what must hold afterwards)
+		okGe, found := false, false
+		for _, st := range fieldStores(lm, "repoManager", "versionID") {
+			for _, b := range lm.Blocks {
+				ifi, isIf := b.Instrs[len(b.Instrs)-1].(*ssa.If)
+				if !isIf || !guardedByEdge(ifi, 0, st) {
+					continue
+				}
+				bo, isBo := ifi.Cond.(*ssa.BinOp)
+				if !isBo {
+					continue
+				}
+				switch {
+				case isFieldLoad(stripConv(bo.Y), "repoManager", "versionID") && (bo.Op == token.GEQ || bo.Op == token.GTR):
+					found = true
+					okGe = bo.Op == token.GEQ
+				case isFieldLoad(stripConv(bo.X), "repoManager", "versionID") && (bo.Op == token.LEQ || bo.Op == token.LSS):
+					found = true
+					okGe = bo.Op == token.LEQ
+				}
+			}
+		}
+		r.check(found && okGe, "repoManager.loadMetadata:versionID-correction-includes-equality", "a known version id equal to the next-id counter also triggers the correction (v >= versionID)",
+			"the load-time correction only fires for known version ids strictly above the counter; the counter is the next id to issue, so after a crash between persisting the uuid↔version maps and persisting the counter (known id == counter) the next new version is given an id that is already in use", w.fpos(lm))
 	}
 	if lm != nil {
 		// every correction of an id counter at load time only raises it: the store is on the true edge of
